@@ -14,6 +14,7 @@ package atpcs
 //	csig R          close R's signalsToStep channel
 //	close           call Close synchronously; aclose: in a goroutine; jclose: wait for it
 //	await N         wait until the server has consumed N client messages
+//	awaitws R       wait until the server has consumed the work-start of run R
 //	mark N          tell the server script that the director got this far (server: expectmark N)
 //	awaitsent N     wait until the client has decoded N server items (N-th "dec" event)
 type DOp struct {
